@@ -1,6 +1,7 @@
 package main
 
 import (
+	"regexp"
 	"fmt"
 	"go/types"
 
@@ -51,6 +52,9 @@ type OpaqueErr struct {
 	wraps []Value
 	id    int
 }
+// NativeRegexp: a compiled regular expression (pattern concrete); matching is done natively on concrete subjects.
+type NativeRegexp struct{ re *regexp.Regexp }
+
 type MapIter struct {
 	m     *Map
 	order []int
